@@ -1,4 +1,5 @@
 import MlodaVerif.Model.Extender
+/-! Helper lemmas for C20 (core Lean only). -/
 open Extender Gen
 
 namespace Extender
@@ -111,5 +112,322 @@ theorem entries_sub (w : Wrapped α) (es : List Ext) : ∀ n, ∀ b ∈ entries 
       · simp
       · exact List.mem_cons_of_mem _ (ih n b hb)
       · exact List.mem_cons_of_mem _ (ih _ b hb)
+
+
+theorem passthrough (w : Wrapped α) (es : List Ext) (hp : ∀ e ∈ es, e.beh = .pass) :
+    ∀ n v, w n = some v →
+      runChain w es n = ⟨es.map Ev.enter ++ [Ev.call] ++ es.reverse.map Ev.exit, n + 1, some v⟩ := by
+  induction es with
+  | nil => intro n v hv; simp [runChain, callWrapped, hv]
+  | cons e es ih =>
+    intro n v hv
+    have hi := ih (fun x hx => hp x (List.mem_cons_of_mem _ hx)) n v hv
+    have he := hp e (List.mem_cons_self)
+    rw [runChain_cons]
+    rcases wrapper_cases e (runChain w es) n with ⟨v', hv', _, h⟩ | ⟨hb, _⟩ | ⟨_, hnone, _⟩
+    · rw [h, hi]; simp [hi] at hv'; subst hv'; simp
+    · rw [he] at hb; cases hb
+    · have := hnone he; rw [hi] at this; cases this
+
+/-- no extender raises after calling through and the wrapped call succeeds: nothing is re-run -/
+theorem no_rerun (w : Wrapped α) (es : List Ext) (hp : ∀ e ∈ es, e.beh ≠ .raiseAfter) :
+    ∀ n v, w n = some v →
+      entries (runChain w es n).trace = es ∧ (runChain w es n).calls = n + 1 ∧ (runChain w es n).out = some v := by
+  induction es with
+  | nil => intro n v hv; simp [runChain, callWrapped, hv, entries]
+  | cons e es ih =>
+    intro n v hv
+    obtain ⟨h1, h2, h3⟩ := ih (fun x hx => hp x (List.mem_cons_of_mem _ hx)) n v hv
+    have he := hp e (List.mem_cons_self)
+    rw [runChain_cons]
+    rcases wrapper_cases e (runChain w es) n with ⟨v', hv', _, h⟩ | ⟨hb, h⟩ | ⟨hnb, hnone, _⟩
+    · rw [h]; simp [entries, h1, h2, h3] at hv' ⊢; exact hv'.symm
+    · rw [h]; simp [entries, h1, h2, h3]
+    · exfalso
+      cases hb : e.beh with
+      | pass => have := hnone hb; rw [h3] at this; cases this
+      | raiseBefore => exact hnb hb
+      | raiseAfter => exact he hb
+
+theorem entries_cons_cases (w : Wrapped α) (e : Ext) (es : List Ext) (n : Nat) :
+    entries (runChain w (e :: es) n).trace = e :: entries (runChain w es n).trace ∨
+    ∃ m, entries (runChain w (e :: es) n).trace = e :: (entries (runChain w es n).trace ++ entries (runChain w es m).trace) := by
+  rw [runChain_cons]
+  rcases wrapper_cases e (runChain w es) n with ⟨v, hv, _, h⟩ | ⟨_, h⟩ | ⟨_, _, h⟩
+  · left; rw [h]; simp [entries]
+  · left; rw [h]; simp [entries]
+  · right; exact ⟨(runChain w es n).calls, by rw [h]; simp [entries]⟩
+
+/-- whenever `b` is entered, every chain member of strictly smaller priority has been entered before -/
+theorem ascending (w : Wrapped α) (es : List Ext) (hs : es.Pairwise (fun a b => a.priority ≤ b.priority)) :
+    ∀ n k b, (entries (runChain w es n).trace)[k]? = some b →
+      ∀ a ∈ es, a.priority < b.priority → a ∈ (entries (runChain w es n).trace).take k := by
+  induction es with
+  | nil => intro n k b hk a ha; cases ha
+  | cons e es ih =>
+    intro n k b hk a ha hlt
+    have hs' := (List.pairwise_cons.mp hs)
+    have ih' := ih hs'.2
+    have hsub := entries_sub w es
+    -- generic step for a tail `r` made of one or two runs of the inner chain
+    have key : ∀ (r : List Ext), (∀ x ∈ r, x ∈ es) →
+        (∀ k b, r[k]? = some b → ∀ a ∈ es, a.priority < b.priority → a ∈ r.take k) →
+        (e :: r)[k]? = some b → a ∈ (e :: r).take k := by
+      intro r hr hasc hk
+      cases k with
+      | zero =>
+        simp at hk; subst hk
+        rcases List.mem_cons.mp ha with rfl | ha
+        · omega
+        · have := hs'.1 a ha; omega
+      | succ k =>
+        simp at hk
+        rcases List.mem_cons.mp ha with rfl | ha
+        · simp
+        · simp; right; exact hasc k b hk a ha hlt
+    rcases entries_cons_cases w e es n with h | ⟨m, h⟩
+    · rw [h] at hk ⊢
+      exact key _ (hsub n) (ih' n) hk
+    · rw [h] at hk ⊢
+      refine key _ ?_ ?_ hk
+      · intro x hx; rcases List.mem_append.mp hx with hx | hx
+        · exact hsub n x hx
+        · exact hsub m x hx
+      · intro k b hk a ha hlt
+        by_cases hlen : k < (entries (runChain w es n).trace).length
+        · rw [List.getElem?_append_left hlen] at hk
+          have := ih' n k b hk a ha hlt
+          rw [List.take_append_of_le_length (by omega)]; exact this
+        · have hge : (entries (runChain w es n).trace).length ≤ k := by omega
+          rw [List.getElem?_append_right hge] at hk
+          have := ih' m _ b hk a ha hlt
+          rw [List.take_append]
+          simp
+          -- a is in the first run already or in the prefix of the second
+          right; exact this
+
+
+
+theorem calls_mono_chain (w : Wrapped α) (es : List Ext) (n : Nat) : n + 1 ≤ (runChain w es n).calls := calls_gt w es n
+
+/-- an extender that raises after calling through makes the wrapped function run at least twice -/
+theorem raise_after_dup (w : Wrapped α) (es : List Ext) : ∀ n, ∀ e ∈ es, e.beh = .raiseAfter → n + 2 ≤ (runChain w es n).calls := by
+  induction es with
+  | nil => intro n e he; cases he
+  | cons x es ih =>
+    intro n e he hb
+    rw [runChain_cons]
+    rcases List.mem_cons.mp he with rfl | he
+    · rcases wrapper_cases e (runChain w es) n with ⟨v, hv, hp, h⟩ | ⟨hrb, h⟩ | ⟨_, _, h⟩
+      · rw [hb] at hp; cases hp
+      · rw [hb] at hrb; cases hrb
+      · rw [h]; have := calls_gt w es n; have := calls_gt w es (runChain w es n).calls; simp only; omega
+    · have := ih n e he hb
+      rcases wrapper_cases x (runChain w es) n with ⟨v, hv, _, h⟩ | ⟨_, h⟩ | ⟨_, _, h⟩
+      · rw [h]; exact this
+      · rw [h]; exact this
+      · rw [h]; have := calls_gt w es (runChain w es n).calls; simp only; omega
+
+theorem calls_le_pow (w : Wrapped α) (es : List Ext) : ∀ n, (runChain w es n).calls ≤ n + 2 ^ es.length := by
+  induction es with
+  | nil => intro n; simp [runChain, callWrapped]
+  | cons x es ih =>
+    intro n
+    rw [runChain_cons]
+    have h1 := ih n
+    have h2 := ih (runChain w es n).calls
+    have hp : 2 ^ (x :: es).length = 2 ^ es.length + 2 ^ es.length := by simp [Nat.pow_succ]; omega
+    have hpos : 0 < 2 ^ es.length := Nat.pow_pos (by omega)
+    rcases wrapper_cases x (runChain w es) n with ⟨v, hv, _, h⟩ | ⟨_, h⟩ | ⟨_, _, h⟩ <;> rw [h] <;> simp only <;> omega
+
+/-- all extenders raise after calling through: the wrapped function is called exactly 2^len times -/
+theorem all_raise_after_pow (w : Wrapped α) (es : List Ext) (hall : ∀ e ∈ es, e.beh = .raiseAfter) :
+    ∀ n, (runChain w es n).calls = n + 2 ^ es.length := by
+  induction es with
+  | nil => intro n; simp [runChain, callWrapped]
+  | cons x es ih =>
+    intro n
+    have ih' := ih (fun e he => hall e (List.mem_cons_of_mem _ he))
+    have hx := hall x List.mem_cons_self
+    rw [runChain_cons]
+    have hp : 2 ^ (x :: es).length = 2 ^ es.length + 2 ^ es.length := by simp [Nat.pow_succ]; omega
+    rcases wrapper_cases x (runChain w es) n with ⟨v, hv, hpass, h⟩ | ⟨hrb, h⟩ | ⟨_, _, h⟩
+    · rw [hx] at hpass; cases hpass
+    · rw [hx] at hrb; cases hrb
+    · rw [h]; simp only; rw [ih', ih', hp]; omega
+
+/-! ### sorting -/
+
+abbrev LE (a b : Ext) : Prop := a.priority ≤ b.priority
+
+theorem insertPrio_perm (a : Ext) (l : List Ext) : (insertPrio a l).Perm (a :: l) := by
+  induction l with
+  | nil => simp [insertPrio]
+  | cons b l ih =>
+    unfold insertPrio
+    split
+    · exact List.Perm.refl _
+    · exact (List.Perm.cons b ih).trans (List.Perm.swap a b l)
+
+theorem sortPrio_perm (l : List Ext) : (sortPrio l).Perm l := by
+  induction l with
+  | nil => simp [sortPrio]
+  | cons a l ih => exact (insertPrio_perm a _).trans (List.Perm.cons a ih)
+
+theorem insertPrio_sorted (a : Ext) (l : List Ext) (h : l.Pairwise LE) : (insertPrio a l).Pairwise LE := by
+  induction l with
+  | nil => simp [insertPrio]
+  | cons b l ih =>
+    unfold insertPrio
+    have hb := List.pairwise_cons.mp h
+    split
+    · rename_i hab
+      refine List.pairwise_cons.mpr ⟨?_, h⟩
+      intro x hx
+      rcases List.mem_cons.mp hx with rfl | hx
+      · exact hab
+      · have := hb.1 x hx; simp only [LE] at *; omega
+    · rename_i hab
+      refine List.pairwise_cons.mpr ⟨?_, ih hb.2⟩
+      intro x hx
+      have := (insertPrio_perm a l).mem_iff.mp hx
+      rcases List.mem_cons.mp this with rfl | hx
+      · simp only [LE]; omega
+      · exact hb.1 x hx
+
+theorem sortPrio_sorted (l : List Ext) : (sortPrio l).Pairwise LE := by
+  induction l with
+  | nil => simp [sortPrio]
+  | cons a l ih => exact insertPrio_sorted a _ ih
+
+theorem insertPrio_of_le_all (a : Ext) (l : List Ext) (h : ∀ x ∈ l, a.priority ≤ x.priority) : insertPrio a l = a :: l := by
+  cases l with
+  | nil => rfl
+  | cons b l => simp [insertPrio, h b (List.mem_cons_self)]
+
+theorem sortPrio_of_sorted (l : List Ext) (h : l.Pairwise LE) : sortPrio l = l := by
+  induction l with
+  | nil => rfl
+  | cons a l ih =>
+    have ha := List.pairwise_cons.mp h
+    simp [sortPrio, ih ha.2, insertPrio_of_le_all a l ha.1]
+
+theorem sortPrio_idem (l : List Ext) : sortPrio (sortPrio l) = sortPrio l := sortPrio_of_sorted _ (sortPrio_sorted l)
+
+/-- stability: within one priority class the sort keeps the input order -/
+theorem insertPrio_filter (p : Int) (a : Ext) (l : List Ext) :
+    (insertPrio a l).filter (fun e => e.priority == p) = (a :: l).filter (fun e => e.priority == p) := by
+  induction l with
+  | nil => simp [insertPrio]
+  | cons b l ih =>
+    unfold insertPrio
+    split
+    · rfl
+    · rename_i hab
+      simp only [List.filter_cons] at ih ⊢
+      rw [ih]
+      by_cases h1 : a.priority = p <;> by_cases h2 : b.priority = p <;> simp [h1, h2]
+      omega
+
+theorem sortPrio_filter (p : Int) (l : List Ext) :
+    (sortPrio l).filter (fun e => e.priority == p) = l.filter (fun e => e.priority == p) := by
+  induction l with
+  | nil => rfl
+  | cons a l ih => simp only [sortPrio]; rw [insertPrio_filter]; simp only [List.filter_cons, ih]
+
+/-- a priority-sorted list is determined by its priority classes -/
+theorem sorted_unique : ∀ (l1 l2 : List Ext), l1.Pairwise LE → l2.Pairwise LE →
+    (∀ p : Int, l1.filter (fun e => e.priority == p) = l2.filter (fun e => e.priority == p)) → l1 = l2 := by
+  intro l1
+  induction l1 with
+  | nil =>
+    intro l2 _ _ hf
+    cases l2 with
+    | nil => rfl
+    | cons b l2 => have := hf b.priority; simp at this
+  | cons a l1 ih =>
+    intro l2 h1 h2 hf
+    cases l2 with
+    | nil => have := hf a.priority; simp at this
+    | cons b l2 =>
+      have ha := List.pairwise_cons.mp h1
+      have hb := List.pairwise_cons.mp h2
+      -- a occurs in b :: l2 and b occurs in a :: l1
+      have ha_mem : a ∈ b :: l2 := by
+        have : a ∈ (a :: l1).filter (fun e => e.priority == a.priority) := by simp
+        rw [hf] at this; exact (List.mem_filter.mp this).1
+      have hb_mem : b ∈ a :: l1 := by
+        have : b ∈ (b :: l2).filter (fun e => e.priority == b.priority) := by simp
+        rw [← hf] at this; exact (List.mem_filter.mp this).1
+      have hab : a.priority = b.priority := by
+        have h1 : b.priority ≤ a.priority := by
+          rcases List.mem_cons.mp ha_mem with rfl | h
+          · exact Int.le_refl _
+          · exact hb.1 a h
+        have h2 : a.priority ≤ b.priority := by
+          rcases List.mem_cons.mp hb_mem with rfl | h
+          · exact Int.le_refl _
+          · exact ha.1 b h
+        omega
+      have hhead := hf a.priority
+      simp [hab] at hhead
+      obtain ⟨rfl, _⟩ := hhead
+      congr 1
+      apply ih l2 ha.2 hb.2
+      intro p
+      have := hf p
+      by_cases hp : a.priority = p
+      · simp [hp] at this; exact this
+      · simp [hp] at this; exact this
+
+/-- the sorted chain depends on the iteration order of the set only through the relative order of equal priorities -/
+theorem sortPrio_congr (l1 l2 : List Ext)
+    (hf : ∀ p : Int, l1.filter (fun e => e.priority == p) = l2.filter (fun e => e.priority == p)) :
+    sortPrio l1 = sortPrio l2 := by
+  apply sorted_unique _ _ (sortPrio_sorted l1) (sortPrio_sorted l2)
+  intro p; rw [sortPrio_filter, sortPrio_filter, hf]
+
+theorem filter_len_le_one (p : Int) (l : List Ext) (hd : l.Pairwise (fun a b => a.priority ≠ b.priority)) :
+    (l.filter (fun e => e.priority == p)).length ≤ 1 := by
+  induction l with
+  | nil => simp
+  | cons a l ih =>
+    have ha := List.pairwise_cons.mp hd
+    by_cases hp : a.priority = p
+    · have : l.filter (fun e => e.priority == p) = [] := by
+        apply List.filter_eq_nil_iff.mpr
+        intro x hx; have := ha.1 x hx; simp; omega
+      simp [hp, this]
+    · simp [hp]; exact ih ha.2
+
+theorem sortPrio_perm_distinct (l1 l2 : List Ext) (hp : l1.Perm l2)
+    (hd : l1.Pairwise (fun a b => a.priority ≠ b.priority)) : sortPrio l1 = sortPrio l2 := by
+  apply sortPrio_congr
+  intro p
+  have h1 := filter_len_le_one p l1 hd
+  have hperm := hp.filter (fun e => e.priority == p)
+  generalize l1.filter (fun e => e.priority == p) = f1 at *
+  generalize l2.filter (fun e => e.priority == p) = f2 at *
+  match f1, h1, hperm with
+  | [], _, hperm => exact (List.Perm.nil_eq hperm)
+  | [x], _, hperm => exact (List.singleton_perm.mp hperm)
+
+
+/-! ### `get_function_extender` -/
+
+theorem mem_matching (exts : List Ext) (h : Hook) (e : Ext) :
+    e ∈ matching exts h ↔ e ∈ exts ∧ e.wraps.contains h = true := by
+  simp [matching, List.mem_filter]
+
+/-- the three outcomes of `get_function_extender` (the double sort collapses to one) -/
+theorem getFE_cases (exts : List Ext) (h : Hook) :
+    (matching exts h = [] ∧ getFunctionExtender exts h = .none) ∨
+    (∃ e, matching exts h = [e] ∧ getFunctionExtender exts h = .bare e) ∨
+    (2 ≤ (matching exts h).length ∧ getFunctionExtender exts h = .composite (sortPrio (matching exts h))) := by
+  unfold getFunctionExtender
+  match hm : matching exts h with
+  | [] => left; exact ⟨rfl, rfl⟩
+  | [e] => right; left; exact ⟨e, rfl, rfl⟩
+  | a :: b :: t => right; right; exact ⟨by simp, by simp only; rw [sortPrio_idem]⟩
 
 end Extender
